@@ -35,6 +35,8 @@ class Executor(ExprMixin, StmtMixin, CallMixin, StrMixin, TermMixin):
         self.last_abs_result = {}
         self.global_defs = getattr(spec, "global_defs", {})
         self.spec_funcs = dict(BASE_SPEC_FUNCS)
+        from . import termadt as _ta
+        self.spec_funcs.update(_ta.SPEC_FUNCS)
         self.spec_funcs.update(getattr(spec, "spec_funcs", {}))
         self.stdlib_mixins = getattr(spec, "stdlib_mixins", {})
         self.auto_inline = getattr(spec, "auto_inline", True)
@@ -185,11 +187,16 @@ def _list_remove(ex, args, node):
     return res
 
 
+def _real(ex, args, node):
+    """Exact real value of an int (specifications only)."""
+    return to_float(args[0], exact=True)
+
+
 def _allocated(ex, args, node):
     return vbool(z3.Select(ex.ctx.alloc, args[0].t))
 
 
-BASE_SPEC_FUNCS = {"allocated": _allocated, "popcount": _popcount, "isfinite": _isfinite, "lastcall": _lastcall, "called": _called,
+BASE_SPEC_FUNCS = {"allocated": _allocated, "real": _real, "popcount": _popcount, "isfinite": _isfinite, "lastcall": _lastcall, "called": _called,
                    "unwrap": _unwrap, "store": _store, "shift_down": _shift_down, "list_remove": _list_remove}
 
 
@@ -325,8 +332,12 @@ def run_path(ex, ctx, spec, fs, lemma, fdef, modname, clsname, fname, res):
     fr = ex.push_frame(modname, clsname, fname, fs)
     ex.number_sites(fdef)
     a = fdef.args
-    if a.vararg or a.kwarg:
-        raise Unsupported("*args/**kwargs in verified function")
+    if a.vararg:
+        raise Unsupported("*args in verified function")
+    if a.kwarg:
+        # **k: an opaque dictionary; any use of it in the body is outside the subset
+        fr.locals[a.kwarg.arg] = Val(TType(), None, ("kwargs",))
+        ex.dropped.add("**%s of %s: opaque, unused" % (a.kwarg.arg, fname))
     names = [x.arg for x in a.args] + [x.arg for x in a.kwonlyargs]
     types = fs.types if fs is not None else lemma.types
     for n in names:
@@ -409,6 +420,12 @@ def run_path(ex, ctx, spec, fs, lemma, fdef, modname, clsname, fname, res):
         pass
     fr.locals["result"] = ret
     fr.alias.pop("result", None)
+    # in postconditions a parameter name denotes the argument value (the body may have rebound it);
+    # container parameters denote their current contents
+    for n, v in fr.entry_locals.items():
+        if not isinstance(v.ty, (TList, TDict, TSet)):
+            fr.locals[n] = v
+            fr.alias.pop(n, None)
     for g, e in fs.ghost_exit.items():
         v = ex.spec_eval(e)
         selfv = fr.entry_locals["self"]
